@@ -57,6 +57,15 @@ def check(ctx):
                "exactly +1 day; the result is midnight(day) + fraction")
     ctx.guarded(o, lambda o: sched_dep.search_monotone(ctx, o, S))
 
+    o = ctx.ob('outside_prerequisites_survive_clone', 'R9',
+               "the scheduler works on wbs.clone(): predecessors outside the WBS (including detached tasks) must stay linked in the clone, "
+               "otherwise the task is scheduled without them - shared clone rule with C10")
+
+    def clone_links(o):
+        from .clone_common import clone_provenance
+        clone_provenance(ctx, o)
+    ctx.guarded(o, clone_links)
+
     o = ctx.ob('no_reservation_before_start_or_today', 'R8',
                "the fill loop is started at max(task.start, now()) and its first day is midnight of that date", floor=2)
     ctx.guarded(o, lambda o: fill_start(ctx, o, ps))
